@@ -1,6 +1,6 @@
 (** Property C12 — the theorems the check counts as obligations.  Nothing but
     statements closed by [exact] and [Print Assumptions]. *)
-From HS Require Import Base.Prelude C12.Model C12.PaxosNode C12.PaxosSys C12.LockModel C12.Lock.
+From HS Require Import Base.Prelude C12.Model C12.PaxosNode C12.PaxosSys C12.LockModel C12.Lock C12.MultiModel C12.Multi.
 From Coq Require Import Sorted.
 Local Open Scope Z_scope.
 
@@ -74,3 +74,47 @@ Theorem c12_lock_grants_are_logged : forall maxw ops,
      In (k, ltoken l, h) (glog (lrun maxw dinit ops))).
 Proof. exact grants_are_logged. Qed.
 Print Assumptions c12_lock_grants_are_logged.
+
+(** Multi-Paxos / Flexible Paxos, any quorum sizes, any sequence of handler
+    calls: the state machine is given entries 1, 2, ..., _last_applied in that
+    order, once each; the commit index stays inside the log. *)
+Theorem c12_mpaxos_apply_in_order : forall c me l,
+  let s := mrun c (minit me) l in
+  consecutive 1 (mapp s) /\ mapplied s = zlen (mapp s) /\ 0 <= mcommit s <= zlen (mlog s) /\ mcommit s <= mapplied s.
+Proof. exact multi_apply_in_order. Qed.
+Print Assumptions c12_mpaxos_apply_in_order.
+
+(** Per-slot agreement is REFUTED on the faithful model of MultiPaxosNode
+    (leader takeover; known finding C12-mpaxos-takeover-overwrites-slot) ... *)
+Theorem c12_multipaxos_slot_agreement_refuted : ~ slot_agreement_statement false.
+Proof. exact multipaxos_slot_agreement_refuted. Qed.
+Print Assumptions c12_multipaxos_slot_agreement_refuted.
+
+(** ... and of FlexiblePaxosNode with intersecting quorums, even with a single
+    leader and no loss (reordered Accepts; C12-mpaxos-accept-appended-at-wrong-slot). *)
+Theorem c12_flexpaxos_slot_agreement_refuted : ~ slot_agreement_statement true.
+Proof. exact flexpaxos_slot_agreement_refuted. Qed.
+Print Assumptions c12_flexpaxos_slot_agreement_refuted.
+
+(** Leader liveness is REFUTED for both (C12-mpaxos-submit-not-replicated):
+    a fault-free run ends with a quiet network, a leader holding the command in
+    its log, and a node that never applied it. *)
+Theorem c12_flexpaxos_leader_liveness_refuted : ~ leader_liveness_statement true.
+Proof. exact flexpaxos_leader_liveness_refuted. Qed.
+Print Assumptions c12_flexpaxos_leader_liveness_refuted.
+
+Theorem c12_multipaxos_leader_liveness_refuted : ~ leader_liveness_statement false.
+Proof. exact multipaxos_leader_liveness_refuted. Qed.
+Print Assumptions c12_multipaxos_leader_liveness_refuted.
+
+(** The two mechanisms behind it, for every state: submit() sends nothing, and
+    MultiPaxosNode steps down on its own heartbeat tick. *)
+Theorem c12_mpaxos_submit_sends_nothing : forall c s cmd, snd (mstep c s (MSubmit cmd)) = [].
+Proof. exact submit_sends_nothing. Qed.
+Print Assumptions c12_mpaxos_submit_sends_nothing.
+
+Theorem c12_multipaxos_own_tick_demotes : forall c s bn bnode commit,
+  mflex c = false -> bal_leb (mbal s) (bn, bnode) = true ->
+  misl (fst (mstep c s (MHeartbeat bn bnode commit true))) = false.
+Proof. exact multipaxos_own_tick_demotes. Qed.
+Print Assumptions c12_multipaxos_own_tick_demotes.
